@@ -130,7 +130,8 @@ DEFAULT_SCHEMAS = [DefaultSchema('default', [Archive(60, 10)])]
 DEFAULT_AGG = [DefaultSchema('default', (None, None))]
 
 
-def install(cache, db, create_bucket=None, update_bucket=None, reactor=None, time_mod=None, schemas=None, agg=None):
+def install(cache, db, create_bucket=None, update_bucket=None, reactor=None, time_mod=None, schemas=None, agg=None, mod=None):
+  writer = mod if mod is not None else globals()['writer']
   writer.MetricCache = lambda: cache
   writer.log = CountingLog()
   writer.CREATE_BUCKET, writer.UPDATE_BUCKET = create_bucket, update_bucket
